@@ -28,26 +28,33 @@ static bool wellformed(const ST& r){ for (unsigned d = 0; d < r.ndim; d++) { if 
     for (uint64_t i = 0; i < r.nknots[d]; i++) if (!std::isfinite(r.knots[d][i]) || (i && r.knots[d][i] < r.knots[d][i - 1])) { printf("returned table: knots of dimension %u are not finite and non-decreasing\n", d); return false; } } return true; }
 static int corrupt_child(int){
   ST r; bool ok = false; try { ok = r.read_fits(path); } catch (std::exception& e) { printf("read failed: %s\n", e.what()); ok = false; }
-  if (!ok) { if (r.ndim != 0) { printf("failed read left ndim = %u\n", r.ndim); return 3; } return 0; }   // destructor runs at return: a crash there is seen by the parent
+  if (!ok) { if (r.ndim != 0 || r.naux != 0 || r.aux != nullptr || r.coefficients != nullptr) { printf("failed read left ndim = %u, naux = %u, aux %s\n", r.ndim, r.naux, r.aux ? "non-null" : "null"); return 3; } if (r.get_aux_value("A") != nullptr) { printf("key lookup on the table a failed read left behind found something\n"); return 3; } return 0; }   // destructor runs at return: a crash there is seen by the parent
   if (!wellformed(r)) return 3;
   return 0;
 }
 static int allocfail_child(int k){
   ST t; table(t); { ST w; table(w); w.write_fits(path); }
-  ST r; ST pre; pre.read_fits(path); if (scen != "readfaults") r.read_fits(path);
+  ST r; ST pre; pre.read_fits(path); if (scen != "readfaults" && scen != "fitfaults") r.read_fits(path);
   long before = live_blocks; double kk[3] = {-1, 0, 1}; std::vector<size_t> perm(nd); for (unsigned d = 0; d < nd; d++) perm[d] = nd - 1 - d; bool thr = false;
-  fail_at = alloc_count + k;
-  try { if (scen == "readfaults") r.read_fits(path); else if (scen == "convolve") r.convolve(cdim, kk, 3); else if (scen == "permute") r.permuteDimensions(perm); else if (scen == "keys") { if (aux.empty()) r.write_key("FRESHKEY", "value"); else r.remove_key(aux.back().first.c_str()); } }
+  ::ndsparse fdata; std::vector<std::vector<double>> fco(nd); std::vector<std::vector<unsigned>> fidx(nd); std::vector<unsigned*> fip(nd); std::vector<unsigned> franges(nd); std::vector<double> fy, fw; std::vector<double> fsm(nd, 0.5); std::vector<uint32_t> fpo(nd);
+  if (scen == "fitfaults") { size_t R = 1; for (unsigned d = 0; d < nd; d++) { unsigned ncd = 2 + d; double lo = kn[d][ord[d]], hi = kn[d][nk[d] - ord[d] - 1]; for (unsigned i = 0; i < ncd; i++) fco[d].push_back(lo + (hi - lo) * (2 * i + 1) / (2.0 * ncd)); R *= ncd; franges[d] = ncd; fpo[d] = ord[d] ? 1 : 0; }
+    std::vector<unsigned> ix(nd, 0); for (size_t r2 = 0; r2 < R; r2++) { for (unsigned d = 0; d < nd; d++) fidx[d].push_back(ix[d]); fy.push_back(1.0 + 0.25 * r2); fw.push_back(1.0); int d = nd - 1; while (d >= 0 && ++ix[d] == fco[d].size()) { ix[d] = 0; d--; } }
+    for (unsigned d = 0; d < nd; d++) fip[d] = fidx[d].data(); memset(&fdata, 0, sizeof fdata); fdata.rows = R; fdata.ndim = nd; fdata.x = fy.data(); fdata.i = fip.data(); fdata.ranges = franges.data(); }
+  bool known_scen = scen == "fitfaults" || scen == "readfaults" || scen == "convolve" || scen == "permute" || scen == "keys";
+  if (!known_scen) { printf("no real-build replay for scenario %s\n", scen.c_str()); return 9; }
+  try { if (scen == "fitfaults") { std::vector<std::vector<double>> kv(kn); std::vector<uint32_t> ov(ord.begin(), ord.end()); fail_at = alloc_count + k; r.fit(fdata, fw, fco, ov, kv, fsm, fpo); }
+    else if (scen == "readfaults") { fail_at = alloc_count + k; r.read_fits(path); } else if (scen == "convolve") { fail_at = alloc_count + k; r.convolve(cdim, kk, 3); } else if (scen == "permute") { fail_at = alloc_count + k; r.permuteDimensions(perm); }
+    else if (scen == "keys") { bool overwrite = what.find("write_key(") != std::string::npos; fail_at = alloc_count + k; if (overwrite) r.write_key(aux.empty() ? "FRESHKEY" : aux.front().first.c_str(), "value"); else if (aux.empty()) r.write_key("FRESHKEY", "value"); else r.remove_key(aux.back().first.c_str()); } }
   catch (std::exception& e) { thr = true; }
   fail_at = -1;
   if (!thr) return 9;                            // the operation needs fewer than k allocations: the sweep is complete
-  if (scen == "readfaults") { if (r.ndim != 0) { printf("allocation #%d failing: failed read left ndim = %u\n", k, r.ndim); return 3; } return 0; }
+  if (scen == "readfaults" || scen == "fitfaults") { if (r.ndim == 0 && (r.naux != 0 || r.aux != nullptr || r.coefficients != nullptr || r.get_aux_value("A") != nullptr)) { printf("allocation #%d failing: the failed operation left ndim = 0 but naux = %u / stale pointers\n", k, r.naux); return 3; } if (r.ndim != 0) { printf("allocation #%d failing: failed %s left ndim = %u\n", k, scen == "fitfaults" ? "fit" : "read", r.ndim); return 3; } return 0; }
   printf("allocation #%d failing: ", k);
   if (r.ndim != 0 && !same(pre, r)) { printf("the failed operation left a table that is neither the old one nor empty\n"); return 3; }
   return 0;                                      // destructors run now: double free aborts, seen by the parent
 }
 int main(int argc, char** argv){
-  std::ifstream in(argv[1]); std::string line, w;
+  std::ifstream in(argv[1]); std::string line, w; if (!in) { printf("cannot open spec %s\n", argv[1]); return 2; }
   while (std::getline(in, line)) { std::istringstream ls(line); if (!(ls >> w)) continue;
     if (w == "state") { std::string id, tok; ls >> id; while (ls >> tok) { if (tok == "nd") { ls >> nd; ord.resize(nd); nk.resize(nd); } else if (tok == "scen") ls >> scen; else if (tok == "cdim") ls >> cdim; } }
     else if (w == "what") std::getline(ls, what);
@@ -73,6 +80,13 @@ int main(int argc, char** argv){
     else if (v == "foreign") { for (unsigned d = 0; d < nd; d++) { st = 0; fits_delete_key(f, ("ORDER" + std::to_string(d)).c_str(), &st); } st = 0; fits_delete_key(f, "TYPE", &st); int n = 0; st = 0; fits_get_num_hdus(f, &n, &st); while (n > 1) { fits_movabs_hdu(f, n, &hd, &st); fits_delete_hdu(f, &hd, &st); n--; } }
     st = 0; fits_close_file(f, &st);
     int r = in_child(corrupt_child, 0); if (r == 3) bad = 1; else if (r >= 128) { printf("the process crashed (signal %d) reading the file or destroying the table\n", r - 128); bad = 1; }
+  } else if (scen == "occupied") {
+    auto child = [](int)->int { ST t; table(t); t.write_fits(path); ST r; r.read_fits(path); bool refused = false; try { r.read_fits(path); } catch (std::exception&) { refused = true; }
+      if (!refused || !same(t, r)) { printf("read into a populated table was not refused, or changed it\n"); return 3; }
+      ST a(std::move(r)); if (r.ndim != 0 || r.naux != 0 || r.aux != nullptr || r.coefficients != nullptr) { printf("moved-from table is not empty: ndim = %u, naux = %u\n", r.ndim, r.naux); return 3; }
+      if (r.get_aux_value("A") != nullptr) { printf("key lookup on the moved-from table found something\n"); return 3; }
+      ST b; b = std::move(a); if (a.ndim != 0 || a.naux != 0) { printf("table moved from by assignment to an empty one is not empty\n"); return 3; } if (!same(t, b)) { printf("move-assigned table differs\n"); return 3; } return 0; };
+    int r = in_child(child, 0); if (r == 3) bad = 1; else if (r >= 128) { printf("the process crashed (signal %d)\n", r - 128); bad = 1; }
   } else if (scen == "keylimits") {
     for (unsigned kl : {1u, 8u, 9u, 10u, 21u, 30u}) for (int delta : {0, 1}) { unsigned lim = kl <= 8 ? 68 : 80 - (13 + kl); std::string key(kl, 'K'), val(lim + delta, 'v'); key[0] = 'Q';
       ST t; table(t); bool thr = false; try { t.write_key(key.c_str(), val.c_str()); } catch (std::exception&) { thr = true; }
